@@ -119,7 +119,7 @@ theorem readWorking_spec (fill : Inst → Inst) (hfill : FillOk fill) (asev : In
       show x ≠ 0
       omega)
   rw [hkept, fids_zero] at h1
-  have h2 := pass2_spec .working fill asev 0 (pass1 .working 0 cleared (s.nodes.map toEntry)).maxId hfill.id_eq rfl
+  have h2 := pass2_spec .working fill asev 0 (pass1 .working 0 cleared (s.nodes.map toEntry)).maxId hfill.id_eq rfl rfl
     (s.nodes.map toEntry) []
     (by rw [hkept, fids_zero]; simpa [ids, live] using hnd)
     (by
@@ -253,16 +253,123 @@ theorem C16_same_as_exchange (asev : Inst → Sev) (s : Sess) (hs : Inv s) (hn :
   rw [(C14_read _ hconf).1, C16_roundtrip asev s hs hn hc]
   simp [writeExchange, Function.comp_def]
 
+/-! ### the whole file: HEADER section and instance comments -/
+
+def stripNode (wc : Bool) (n : Node) : Node := { n with inst := stripComment wc n.inst }
+def stripSess (wc : Bool) (s : Sess) : Sess := { s with nodes := s.nodes.map (stripNode wc) }
+
+theorem strip_id (wc : Bool) (i : Inst) : (stripComment wc i).id = i.id := by cases wc <;> rfl
+theorem strip_refs (wc : Bool) (i : Inst) : (stripComment wc i).refs = i.refs := by cases wc <;> rfl
+theorem strip_true (i : Inst) : stripComment true i = i := rfl
+theorem strip_idem (wc : Bool) (i : Inst) : stripComment wc (stripComment wc i) = stripComment wc i := by
+  cases wc <;> rfl
+
+theorem ids_strip (wc : Bool) (ns : List Node) : ids (ns.map (stripNode wc)) = ids ns := by
+  simp [ids, stripNode, strip_id, Function.comp_def]
+
+theorem live_strip (wc : Bool) (s : Sess) : live (stripSess wc s) = (live s).map (stripNode wc) := by
+  simp only [live, stripSess, List.filter_map]
+  congr 1
+
+theorem writeWorking_strip (wc : Bool) (s : Sess) :
+    (writeWorking s).map (fun e => { e with inst := stripComment wc e.inst }) = writeWorking (stripSess wc s) := by
+  unfold writeWorking stripSess
+  induction s.nodes with
+  | nil => rfl
+  | cons n ns ih =>
+    simp only [List.map_cons, List.filterMap_cons]
+    cases hst : n.state <;> simp_all [stripNode, writeLetterOf]
+
+theorem inv_strip (wc : Bool) {s : Sess} (hs : Inv s) : Inv (stripSess wc s) :=
+  ⟨by simpa [stripSess, ids_strip] using hs.nodup,
+   by simpa [stripSess, ids_strip] using hs.pos,
+   by simpa [stripSess, ids_strip] using hs.le_max⟩
+
+theorem noNoState_strip (wc : Bool) {s : Sess} (h : NoNoState s) : NoNoState (stripSess wc s) := by
+  intro n hn
+  simp only [stripSess, List.mem_map] at hn
+  obtain ⟨m, hm, rfl⟩ := hn
+  exact h m hm
+
+theorem closedLive_strip (wc : Bool) {s : Sess} (h : ClosedLive s) : ClosedLive (stripSess wc s) := by
+  intro n hn r hr
+  rw [live_strip] at hn ⊢
+  simp only [List.mem_map] at hn
+  obtain ⟨m, hm, rfl⟩ := hn
+  rw [ids_strip]
+  exact h m hm r (by simpa [stripNode, strip_refs] using hr)
+
+/-- Save with `writeComments = wc`, load into ANY STEPfile (whatever it read before): the not-deleted instances come back in
+    order with ids, types, values, references, states and — when comments were written — their Part 21 comments; the
+    HEADER section is the saved one. -/
+theorem C16_file_roundtrip (wc : Bool) (asev : Inst → Sev) (prev s : FSess)
+    (hs : Inv s.sess) (hn : NoNoState s.sess) (hc : ClosedLive s.sess) :
+    (readWorkingFile id asev prev (writeWorkingFile wc s)).sess.nodes = (live s.sess).map (stripNode wc) ∧
+    (readWorkingFile id asev prev (writeWorkingFile wc s)).header = s.header := by
+  constructor
+  · simp only [readWorkingFile, writeWorkingFile]
+    rw [writeWorking_strip, C16_roundtrip asev _ (inv_strip wc hs) (noNoState_strip wc hn) (closedLive_strip wc hc), live_strip]
+  · have h1 : readWorkingClearsHeader = true := rfl
+    simp [readWorkingFile, writeWorkingFile, mergeHeader, h1]
+    intro h; exact absurd h (by decide)
+
+/-- with comments written (the default) nothing at all is lost: the session is the not-deleted part of the saved one -/
+theorem C16_file_roundtrip_comments (asev : Inst → Sev) (prev s : FSess)
+    (hs : Inv s.sess) (hn : NoNoState s.sess) (hc : ClosedLive s.sess) :
+    (readWorkingFile id asev prev (writeWorkingFile true s)).sess.nodes = live s.sess := by
+  rw [(C16_file_roundtrip true asev prev s hs hn hc).1]
+  have : ∀ n : Node, stripNode true n = n := fun n => by cases n; rfl
+  have h2 : (live s.sess).map (stripNode true) = (live s.sess).map id := List.map_congr_left (fun n _ => this n)
+  rw [h2, List.map_id]
+
+/-- saving again (same `writeComments`): header identical, entries identical except that the `D` entries are gone -/
+theorem C16_file_second_save (wc : Bool) (asev : Inst → Sev) (prev s : FSess)
+    (hs : Inv s.sess) (hn : NoNoState s.sess) (hc : ClosedLive s.sess) :
+    (writeWorkingFile wc (readWorkingFile id asev prev (writeWorkingFile wc s))).header = s.header ∧
+    (writeWorkingFile wc (readWorkingFile id asev prev (writeWorkingFile wc s))).entries =
+      (writeWorkingFile wc s).entries.filter (fun e => e.letter ≠ writeLetterOf .delete) := by
+  have hr := C16_file_roundtrip wc asev prev s hs hn hc
+  refine ⟨hr.2, ?_⟩
+  have h2 := C16_second_save asev (stripSess wc s.sess) (inv_strip wc hs) (noNoState_strip wc hn) (closedLive_strip wc hc)
+  have hsess : (readWorkingFile id asev prev (writeWorkingFile wc s)).sess =
+      readWorking id asev (writeWorking (stripSess wc s.sess)) := by
+    simp only [readWorkingFile, writeWorkingFile, writeWorking_strip]
+  have hnodes := hr.1
+  rw [hsess] at hnodes
+  -- stripping an already stripped session changes nothing
+  have hfix : stripSess wc (readWorking id asev (writeWorking (stripSess wc s.sess))) =
+      readWorking id asev (writeWorking (stripSess wc s.sess)) := by
+    cases hrw : readWorking id asev (writeWorking (stripSess wc s.sess)) with | mk nodes mx =>
+    rw [hrw] at hnodes
+    simp only at hnodes
+    simp only [stripSess]
+    congr 1
+    rw [hnodes, List.map_map]
+    apply List.map_congr_left
+    intro n _
+    simp [stripNode, strip_idem]
+  show ((writeWorking (readWorkingFile id asev prev (writeWorkingFile wc s)).sess).map
+      (fun e => { e with inst := stripComment wc e.inst })) = _
+  rw [writeWorking_strip, hsess, hfix, h2]
+  simp only [writeWorkingFile, writeWorking_strip]
+
+/-- why `ReadWorkingFile` must forget the previous header: once the old header has `headerReplaceBelow` (4) or more
+    instances, `HeaderMergeInstances` keeps it and drops the one just read — the saved file would then carry the header
+    of an earlier load (the failing input is: load A with 4+ header entities, load B, save) -/
+theorem C16_header_merge_keeps_old (old new : List String) (h : headerReplaceBelow ≤ old.length) :
+    mergeHeader old new = old := by
+  unfold mergeHeader; rw [if_neg (by omega)]
+
 /-- `noStateSE` is not an editing state: such a node is not written at all (with a message) and is therefore lost.
     The property quantifies over complete / incomplete / new / deleted, so this is outside it; recorded as a witness. -/
 theorem C16_nostate_dropped_witness :
-    writeWorking ⟨[⟨⟨1, [⟨"T0", []⟩]⟩, .noState⟩], 1⟩ = [] := by decide
+    writeWorking ⟨[⟨⟨1, [⟨"T0", []⟩], ""⟩, .noState⟩], 1⟩ = [] := by decide
 
 /-! ### hypotheses are satisfiable, with all four states and a missing value present -/
 
 def exS : Sess :=
-  ⟨[⟨⟨1, [⟨"T0", [.null, .ref 3]⟩]⟩, .incomplete⟩, ⟨⟨2, [⟨"T0", [.tok "5", .null]⟩]⟩, .delete⟩,
-    ⟨⟨3, [⟨"T1", [.aggr (.cons (.ref 1) .nil)]⟩]⟩, .new⟩, ⟨⟨7, [⟨"T1", [.aggr .nil]⟩]⟩, .complete⟩], 7⟩
+  ⟨[⟨⟨1, [⟨"T0", [.null, .ref 3]⟩], ""⟩, .incomplete⟩, ⟨⟨2, [⟨"T0", [.tok "5", .null]⟩], ""⟩, .delete⟩,
+    ⟨⟨3, [⟨"T1", [.aggr (.cons (.ref 1) .nil)]⟩], ""⟩, .new⟩, ⟨⟨7, [⟨"T1", [.aggr .nil]⟩], ""⟩, .complete⟩], 7⟩
 
 example : Inv exS ∧ NoNoState exS ∧ ClosedLive exS := by
   refine ⟨⟨by decide, by decide, by decide⟩, ?_, ?_⟩
